@@ -12,6 +12,12 @@ CHECKS = {
         text='Theorems for every history: the code-shaped model of astmRainflowCounting equals the E1049 5.4.4 stack machine on the reversal sequence cycle for cycle, its table is the histogram of its cycles, and the counts total (R-1)/2. The model is tied to /repo/src by exact differential correspondence (sequence, table and matrix outputs) on tie-rich histories; the same Lean predicates are evaluated on the implementation output.',
         note='Trusted: Lean kernel + 3 standard axioms; hand-written model FF.implGo/FF.pv tied by correspondence (sampled, plus all histories <= 6 points over 4 values quick / <= 8 over 5 thorough); integer (dyadic-grid) arithmetic stands for exact float arithmetic; numpy coercion and dict/argsort aggregation compared not proved. Max-range and closed-loop clauses: see DESIGN §5.',
         ref='§5 C01'),
+    'C02': dict(
+        engine='list',
+        technique='Lean 4 proof (invariants by induction over each counter: strictly alternating residue, point conservation, Dec residue for range-pair) + exact model/implementation correspondence',
+        text='Theorem C02_census: for each of the seven counter models and every non-constant history all clauses of the census predicate hold (table = histogram, ranges in (0, max-min], end points are reversals, totals bounded / exact, whole cycles only, range-pair leaves at most one range). The seven models are tied to /repo/src by exact correspondence in both output modes; the same predicate is evaluated on the implementation output.',
+        note='Trusted: Lean kernel + standard axioms; hand-written list models of the seven counters (linked-index bookkeeping modelled as stack / list deletion) tied by sampled + small-scope-exhaustive exact correspondence; exact arithmetic on the dyadic grid stands for binary64; aggregation rounding to 8 decimals is the identity on the grid.',
+        ref='§5 C02'),
 }
 
 NOT_YET = {}
